@@ -59,9 +59,16 @@ def arith_result(a, b):
     return s        # the signed type is strictly wider: it represents every value of the unsigned one
 
 
-def ub_equiv_post(a, r):
-    """same trap condition; same result bits whenever the reference does not trap"""
-    return T.and_(T.eq(a.ub, r.ub), T.or_(r.ub, T.eq(a.ret, r.ret)))
+def ub_equiv_post(a, r, nan_ct=None):
+    """same trap condition; same result bits whenever the reference does not trap.
+    nan_ct (a floating C type): the result is produced by floating-point *arithmetic*; SMT-LIB FP has a single NaN, so the
+    payload/sign of an arithmetic NaN result is not modelled.  Structurally identical encodings still fold to bit equality;
+    when they are not identical the solver is asked for a difference other than 'both NaN' (which would not replay)."""
+    same = T.eq(a.ret, r.ret)
+    if nan_ct is not None:
+        fmt = F.FMT_OF[nan_ct]
+        same = T.or_(same, T.and_(T.fp_isnan(fmt, a.ret), T.fp_isnan(fmt, r.ret)))
+    return T.and_(T.eq(a.ub, r.ub), T.or_(r.ub, same))
 
 
 class C13(F.Check):
@@ -74,6 +81,9 @@ class C13(F.Check):
         "kernels are lowered by the same compiler in the same TU",
         "quantifier over operand values is solver-decided and complete (every bit pattern, incl. NaN payloads, "
         "infinities, signed zeros; x87 long double as (_ FloatingPoint 15 64), pseudo-denormals outside)",
+        "SMT-LIB floating point has a single NaN: where an au kernel and its reference are not structurally identical, results "
+        "of floating-point arithmetic are compared bit-for-bit except that two NaN results count as equal (payload/sign of an "
+        "arithmetic NaN is not modelled); round trips, unary +/- and comparisons are bit-exact for every NaN payload",
         "quantifier over units is enumerated (library units + generated compound/scaled units), over reps: the 11 "
         "arithmetic reps; 'all units in the library' is not enumerated exhaustively",
         "trap condition = any reachable -fsanitize=undefined trap (signed overflow, division by zero, INT_MIN/-1), "
@@ -137,7 +147,9 @@ class C13(F.Check):
             au = add(F.Kernel("c13_%s_%s%s_%s" % (fam, rtag(ct), sfx, ut), ret, args, au_body, key=key, family=fam))
             rw = raw(rawfam or fam, ct, ret, args, raw_body, sfx)
             fp = any(F.ct_is_float(t) for t, _ in args) or F.ct_is_float(ret)
-            self.pairs.append(("%s:%s%s_%s" % (fam, rtag(ct), sfx, ut), au, rw, args, key, fp, witness))
+            # results of FP arithmetic: NaN payload only compared structurally; moves / sign flips / comparisons: bit-exact
+            nan_ct = ret if (F.ct_is_float(ret) and fam not in ("pos", "neg")) else None
+            self.pairs.append(("%s:%s%s_%s" % (fam, rtag(ct), sfx, ut), au, rw, args, key, fp, witness, nan_ct))
             if expect:
                 self.expected_drop[au] = expect
 
@@ -282,7 +294,7 @@ class C13(F.Check):
         drops = {}
         unexpected = []
         npairs = 0
-        for obname, au, rw, args, key, fp, witness in self.pairs:
+        for obname, au, rw, args, key, fp, witness, nan_ct in self.pairs:
             if au not in K or rw not in K:
                 continue
             da, dr = K[au].kernel.dropped, K[rw].kernel.dropped
@@ -301,8 +313,8 @@ class C13(F.Check):
             npairs += 1
             vars_ = [(n, F.ct_sort(t)) for t, n in args]
 
-            def fn(K, *vs, au=au, rw=rw):
-                return T.TRUE, ub_equiv_post(K[au](*vs), K[rw](*vs))
+            def fn(K, *vs, au=au, rw=rw, nan_ct=nan_ct):
+                return T.TRUE, ub_equiv_post(K[au](*vs), K[rw](*vs), nan_ct)
             obs.append(F.Ob(obname, vars_, fn, routes=F.FP_ROUTES if fp else F.CMP_ROUTES, key=key, kernels=[au, rw],
                             note="au operator == raw operator on bare rep: same trap condition, same result bits when no trap"))
             if witness:
